@@ -337,7 +337,81 @@ func C07(rep *ev.Reporter, tier string) {
 			rep.Sample(map[string]interface{}{"case": id, "a": ra, "b": rbt})
 		}
 	})
-	rep.Coverage["evaluations"] = nRuns
+	// ---- siblings that differ in the assignment TARGET (variable nodes are shared by snapshot too) ----
+	targets := [][2]string{
+		{"F.Arr[0]", "F.Arr[1]"}, {`F.M["a"]`, `F.M["b"]`}, {"F.Arr[F.K]", "F.Arr[1 - F.K]"}, {"F.I", "F.I2"}, {"F.P.V", "F.I"}, {"F.SArr[0]", "F.SArr[1]"},
+		{"F.Arr[0]", "F.Arr[F.K]"}, {`F.M["a"]`, "F.M[F.KS]"}, {"F.PArr[0].V", "F.PArr[1].V"}, {`F.MP["a"].V`, `F.MP["b"].V`}, {"F.P.V", "F.P.Q.V"},
+	}
+	var nTargets int64
+	for ti, tp := range targets {
+		id := fmt.Sprintf("c07/target/%d", ti)
+		if rep.ReplayFilter != "" && !strings.HasPrefix(rep.ReplayFilter, id) {
+			continue
+		}
+		val := func(t string) string {
+			if strings.Contains(t, "SArr") {
+				return `"w"`
+			}
+			return "77"
+		}
+		ra := fmt.Sprintf("rule ra { when K.B then %s = %s; Retract(\"ra\"); }", tp[0], val(tp[0]))
+		rb := fmt.Sprintf("rule rb { when K.B then %s = %s; Retract(\"rb\"); }", tp[1], strings.Replace(val(tp[1]), "77", "88", 1))
+		mkw := func() *ref.World {
+			w := worlds[0]()
+			f := w.Objs["F"]
+			f.K = 0
+			f.PArr = []*facts.Sub{{V: 1}, {V: 2}}
+			f.MP = map[string]*facts.Sub{"a": {V: 1}, "b": {V: 2}}
+			f.P = &facts.Sub{V: 1, Q: &facts.Sub{V: 2}}
+			return w
+		}
+		dumpAfter := func(resources []string) (string, string) {
+			lib := ast.NewKnowledgeLibrary()
+			rbld := builder.NewRuleBuilder(lib)
+			for _, r := range resources {
+				if err := rbld.BuildRuleFromResource(hx.KBName, hx.KBVer, pkg.NewBytesResource([]byte(r))); err != nil {
+					return "", err.Error()
+				}
+			}
+			kb, err := lib.NewKnowledgeBaseInstance(hx.KBName, hx.KBVer)
+			if err != nil {
+				return "", err.Error()
+			}
+			w := mkw()
+			tr := hx.RunOn(&hx.Program{ByName: map[string]*grl.Rule{}}, kb, w, hx.RunOpts{MaxCycle: 6, NoSnapshots: true}, nil)
+			if tr.Err != nil {
+				return "", tr.Err.Error()
+			}
+			return w.Objs["F"].Dump(), ""
+		}
+		// expected: run ra alone, then rb alone, on ONE world (two executes of separate knowledge bases)
+		expected := func() string {
+			w := mkw()
+			for _, r := range []string{ra, rb} {
+				lib := ast.NewKnowledgeLibrary()
+				builder.NewRuleBuilder(lib).BuildRuleFromResource(hx.KBName, hx.KBVer, pkg.NewBytesResource([]byte(r)))
+				kb, _ := lib.NewKnowledgeBaseInstance(hx.KBName, hx.KBVer)
+				hx.RunOn(&hx.Program{ByName: map[string]*grl.Rule{}}, kb, w, hx.RunOpts{MaxCycle: 6, NoSnapshots: true}, nil)
+			}
+			return w.Objs["F"].Dump()
+		}()
+		// ra writes 77 and rb 88 to different places unless both targets denote one location (then order decides):
+		// only pairs denoting different locations are judged
+		if tp[0] == "F.Arr[0]" && tp[1] == "F.Arr[F.K]" || tp[1] == "F.M[F.KS]" {
+			continue
+		}
+		for _, v := range [][]string{{ra + "\n" + rb}, {rb + "\n" + ra}, {ra, rb}, {rb, ra}} {
+			got, errs := dumpAfter(v)
+			nTargets++
+			if errs != "" || got != expected {
+				mu.Lock()
+				rep.Violation("C07:sibling-changes-meaning:assignment-target", fmt.Sprintf("`%s = ..` next to `%s = ..`: facts after both rules fired together differ from the rules fired from separate knowledge bases (%s)\n  together: %s\n  separate: %s", tp[0], tp[1], errs, got, expected), map[string]interface{}{"case": id, "grl": strings.Join(v, "\n---\n")})
+				mu.Unlock()
+			}
+		}
+	}
+	rep.Coverage["assignment_target_pairs"] = nTargets
+	rep.Coverage["evaluations"] = nRuns + nTargets
 	rep.Coverage["states"] = nPairs * int64(len(worlds))
 	rep.Coverage["transitions"] = nRuns
 	rep.Coverage["traces_validated_against_impl"] = nRuns
@@ -348,5 +422,5 @@ func C07(rep *ev.Reporter, tier string) {
 		rep.Exhaustive = false
 		rep.Coverage["caps_hit"] = "time budget"
 	}
-	rep.Coverage["rule"] = "sibling pairs differing in exactly one place: constants (floats equal to 6 decimals, sign, exponent, int vs string/bool rendering, digits, hex vs decimal, strings differing in one char / case / containing quote, bracket, comma, arrow, strings imitating snapshot syntax), all 42 substitutions among the 7 arithmetic/bitwise and all 30 among the 6 comparison operators, && vs ||, 9 negation forms pairwise, operand order, grouping, selectors (index, key, computed), paths, argument order/splitting/count/nesting, method names; each pair built alone vs together in both textual orders, in one resource and in separate resources, and as a triple inside a larger shared expression; 5 fact states. Differential oracle (no expected values): FetchMatchingRules membership and the sink value computed by Execute of each rule alone == together. Non-trivial: the reference evaluator certifies that the two siblings differ on at least one of the states."
+	rep.Coverage["rule"] = "sibling pairs differing in exactly one place: constants (floats equal to 6 decimals, sign, exponent, int vs string/bool rendering, digits, hex vs decimal, strings differing in one char / case / containing quote, bracket, comma, arrow, strings imitating snapshot syntax), all 42 substitutions among the 7 arithmetic/bitwise and all 30 among the 6 comparison operators, && vs ||, 9 negation forms pairwise, operand order, grouping, selectors (index, key, computed), paths, argument order/splitting/count/nesting, method names; each pair built alone vs together in both textual orders, in one resource and in separate resources, and as a triple inside a larger shared expression; 5 fact states; plus sibling rules that differ only in the assignment TARGET (index, key, computed selector, field, nested field). Differential oracle (no expected values): FetchMatchingRules membership and the sink value computed by Execute of each rule alone == together. Non-trivial: the reference evaluator certifies that the two siblings differ on at least one of the states."
 }
